@@ -264,7 +264,63 @@ def winSModel (cap nS k : Nat) : Option (Nat × Nat) :=
     let ret := (List.range nS).countP fun i => s4.pc (i + 1) == .idle
     (ret, s4.head - s4.tail)
 
+/-- model prediction for `winC cap nR k`: (returned, size, items) -/
+def winCModel (cap nR k : Nat) : Option (Nat × Nat × Nat) :=
+  (init cap (-1)).map fun s0 =>
+    let s1 := (List.range nR).foldl (fun s i =>
+      let t := i + 1
+      match act s (.call t .recv) with
+      | none => s
+      | some a => (stepT a t).bind (fun b => stepT b t) |>.getD a) s0
+    let s2 := (List.range k).foldl (fun s i => runFull s (100 + i) (.send (100 + i))) s1
+    let s3 := runFull s2 99 .close
+    let pass := fun (s : State) => (List.range nR).foldl (fun s i => (runThread 400 s (i + 1)).1) s
+    let s4 := pass (pass s3)
+    let ret := (List.range nR).countP fun i => s4.pc (i + 1) == .idle
+    let items := s4.log.countP fun e => match e with | .recvRet _ (some _) => true | _ => false
+    (ret, s4.head - s4.tail, items)
+
 end Win
+
+section AWin
+open OpenFGAVerif.Model.Mpsc
+
+/-- model prediction for `awin k close` -/
+def awinModel (k cl : Nat) : String :=
+  let s0 := init
+  let s1 := match act s0 (.call 1 .recv) with
+    | some a => (stepT a 1).getD a
+    | none => s0
+  let full := fun (s : State) (t : Tid) (op : Op) =>
+    match act s (.call t op) with
+    | some a => (runThread 100 a t).1
+    | none => s
+  let s2 := (List.range k).foldl (fun s i => full s (100 + i) (.send (100 + i))) s1
+  let s3 := if cl == 1 then full s2 99 .close else s2
+  let (s4, fin) := runThread 100 s3 1
+  if !fin then "ret=0 stuck" else
+  -- drain by try-receive
+  let rec drain (fuel : Nat) (s : State) (t : Tid) : State :=
+    match fuel with
+    | 0 => s
+    | fuel + 1 =>
+      let s' := full s t .tryRecv
+      match s'.log.getLast? with
+      | some (.recvRet _ (some _)) => drain fuel s' (t + 1)
+      | _ => s'
+  let s5 := drain (k + 2) s4 200
+  let closedSeen :=
+    if cl == 1 then
+      let s6 := full s5 300 .recv
+      match s6.log.getLast? with
+      | some (.recvRet _ none) => "true"
+      | _ => "false"
+    else "-"
+  let vals := s5.recvd
+  let vs := if vals.isEmpty then "-" else ",".intercalate (vals.map toString)
+  s!"ret={vals.length} vals={vs} closed={closedSeen}"
+
+end AWin
 
 def kvNat (tok key : String) : Option Nat :=
   if tok.startsWith (key ++ "=") then natOf (tok.drop (key.length + 1)).toString else none
@@ -346,6 +402,35 @@ def step (c impl : String) : String :=
         | _, _, _ => modelDiff "ret=.. size=.."
       | _ => if impl.startsWith "TIMEOUT" then "SKIP " ++ impl else modelDiff "ret=.. size=.."
     | _, _, _ => "SKIP bad-case"
+  | ["winC", cap, nR, k] =>
+    match natOf cap, natOf nR, natOf k with
+    | some cap, some nR, some k =>
+      match fields impl with
+      | [r, sz, it] =>
+        match kvNat r "ret", kvNat sz "size", kvNat it "items", winCModel cap nR k with
+        | some ret, some size, some items, some (mret, msize, mitems) =>
+          if ret < nR then
+            specViol s!"Close did not wake every parked receiver: {nR} receivers stopped before parking, {k} items sent, queue closed, only {ret} returned"
+          else if items != min nR k ∨ size + items != k then
+            specViol s!"close_then_drain violated: {k} items sent before Close, {items} received by {nR} receivers, {size} left"
+          else if (ret, size, items) != (mret, msize, mitems) then modelDiff s!"ret={mret} size={msize} items={mitems}"
+          else ok "winC" true
+        | _, _, _, _ => modelDiff "ret=.. size=.. items=.."
+      | _ => if impl.startsWith "TIMEOUT" then "SKIP " ++ impl else modelDiff "ret=.. size=.. items=.."
+    | _, _, _ => "SKIP bad-case"
+  | ["awin", k, cl] =>
+    match natOf k, natOf cl with
+    | some k, some cl =>
+      let expected := awinModel k cl
+      if impl.startsWith "ret=0 stuck" then
+        specViol s!"mpsc lost wake-up: the single consumer stayed parked although {k} value(s) were linked"
+      else if !impl.startsWith s!"ret={k} " then
+        specViol s!"mpsc: {k} values sent, consumer received otherwise: {impl}"
+      else if cl == 1 ∧ !impl.endsWith "closed=true" then
+        specViol "mpsc: Recv after Close and drain did not report closed"
+      else if impl != expected then modelDiff expected
+      else ok "awin" true
+    | _, _ => "SKIP bad-case"
   | _ => "SKIP unknown-case"
 
 end C22Driver
